@@ -49,3 +49,12 @@ def jobs(tier, seed):
         J.append(Job('canary:pad', 'harness.c19', 'h_bytes', timeout=300,
                      mutate="pybufrkit.bitops::value += b' ' * (nbytes - value_len)-->>value += b' ' * (nbytes - value_len - 1) + b'\\0'", max_cex=1))
     return J
+
+MANIFEST = {
+    'level_text': ('Bounded symbolic model checking: every method of the real BitStringBitReader/BitStringBitWriter is executed '
+                   'symbolically (CrossHair/z3) with the field value, bit offset, width and field types as solver variables; all '
+                   'paths are explored and the round-trip / refusal / in-place-overwrite / read-past-end assertions hold on each. '
+                   'Bounded: widths 1..64, <= 4 fields, bytes <= 3 over a 4-byte alphabet.'),
+    'level_note': ('Trusted: CrossHair/z3, and the symbolic model of the C-backed bitstring module (compared with the real library '
+                   'on a concrete sweep at every run; every counterexample is replayed on the real library).'),
+}
